@@ -43,6 +43,8 @@ pub struct Profile {
     pub caps: Vec<(u16, Vec<u8>)>,
     pub session_id: u32,
     pub net_channels: Vec<u16>,
+    /// SC_SECURITY carries the optional (zero) serverRandomLen and serverCertLen
+    pub sec_optional: bool,
 }
 
 pub fn general_caps() -> Vec<(u16, Vec<u8>)> {
@@ -121,6 +123,7 @@ impl Default for Profile {
             caps: general_caps(),
             session_id: 0,
             net_channels: vec![],
+            sec_optional: false,
         }
     }
 }
@@ -170,9 +173,14 @@ pub fn sc_core(p: &Profile) -> B {
     b
 }
 
-pub fn sc_security() -> B {
+/// MS-RDPBCGR 2.2.1.4.3: with encryption method and level NONE the serverRandomLen / serverCertLen fields are
+/// optional; when present they are zero
+pub fn sc_security(p: &Profile) -> B {
     let mut b = B::new();
     b.u32le("encryptionMethod", 0).u32le("encryptionLevel", 0);
+    if p.sec_optional {
+        b.u32le("serverRandomLen", 0).u32le("serverCertLen", 0);
+    }
     b
 }
 
@@ -196,7 +204,7 @@ pub fn block(kind: u16, body: &B, name: &str) -> B {
 }
 
 pub fn gcc_blocks(p: &Profile) -> B {
-    let mut blocks: Vec<B> = vec![block(0x0C01, &sc_core(p), "core"), block(0x0C02, &sc_security(), "security"), block(0x0C03, &sc_net(p), "net")];
+    let mut blocks: Vec<B> = vec![block(0x0C01, &sc_core(p), "core"), block(0x0C02, &sc_security(p), "security"), block(0x0C03, &sc_net(p), "net")];
     for (k, body) in &p.extra_blocks {
         let mut bb = B::new();
         bb.bytes("body", body);
